@@ -394,7 +394,9 @@ func GenHistory(seed uint64, compiler, avoidKnown bool) *History {
 				s.ImpGlobal = r.Intn(i)
 			}
 			if r.Chance(1, 5) {
-				s.ImpMem = r.Intn(i)
+				if j := r.Intn(i); !h.Mods[j].PrivMem {
+					s.ImpMem = j
+				}
 			}
 			var owners []int
 			for j := 0; j < i; j++ {
@@ -409,6 +411,7 @@ func GenHistory(seed uint64, compiler, avoidKnown bool) *History {
 		if s.ImpTable < 0 && r.Chance(2, 5) {
 			s.ExportTable = true
 		}
+		s.PrivMem = s.ImpMem < 0 && r.Chance(1, 2)
 		h.Mods = append(h.Mods, s)
 	}
 	// modules whose instantiation fails AFTER they have written their functions into an imported shared table
@@ -500,6 +503,20 @@ func (g *gen) next(i, target int) (Op, bool) {
 		g.slotsDone[rt]++
 		if spec.Fail > 0 {
 			g.failAgenda(rt, slot, spec)
+		}
+		if j := spec.ImpFunc; j >= 0 && g.h.Mods[j].PrivMem && m.named[rt][j] >= 0 && r.Chance(1, 2) {
+			// the exporter has a private memory its functions work on: mark it, close it, collect, churn, keep calling
+			a, b := m.named[rt][j], len(m.inst)
+			ag := []Op{{Kind: "call", Inst: a, Name: "mk_set", Args: []uint64{uint64(1 + r.Intn(900))}}, {Kind: "closemod", Inst: a}}
+			if r.Bool() {
+				ag = append(ag, Op{Kind: "drop", Inst: a})
+			}
+			ag = append(ag, Op{Kind: "gc"}, Op{Kind: "churn", N: 200 + r.Intn(600)}, Op{Kind: "gc"},
+				Op{Kind: "call", Inst: b, Name: "call_impmk"}, Op{Kind: "call", Inst: b, Name: "chain", Args: []uint64{uint64(r.Intn(50)), 0}})
+			if spec.ImpTable == j {
+				ag = append(ag, Op{Kind: "call", Inst: b, Name: "st_call", Args: []uint64{1}})
+			}
+			g.agenda = append(g.agenda, ag...)
 		}
 		if j := spec.ImpGlobal; j >= 0 && m.named[rt][j] >= 0 && r.Chance(1, 2) {
 			// the exporter of an imported funcref global: close, drop, collect, then use the global
@@ -876,7 +893,7 @@ func (g *gen) genPassref() (Op, bool) {
 	if b == a && len(dst) > 1 && r.Chance(3, 4) {
 		b = pick(r, dst)
 	}
-	op := Op{Kind: "passref", From: a, Inst: b, Which: r.Intn(4)}
+	op := Op{Kind: "passref", From: a, Inst: b, Which: r.Intn(5)}
 	if op.Which == 3 && r.Chance(1, 2) {
 		op.Which = r.Intn(3)
 	}
@@ -962,9 +979,9 @@ func (g *gen) genCall(withAct bool) (Op, bool) {
 		op.Sub = g.genSubs(id)
 		return g.finish(op)
 	}
-	names := []string{"f0", "f1", "pt_call", "pt_call", "pt_call", "pt_isnull", "pt_copy_call", "pt_size", "fg_call", "fg_call", "fg_isnull", "xg_call", "mem_rw", "mem_grow", "gi_set", "tramp", "tramp"}
+	names := []string{"f0", "f1", "pt_call", "pt_call", "pt_call", "pt_isnull", "pt_copy_call", "pt_size", "fg_call", "fg_call", "fg_isnull", "xg_call", "mem_rw", "mem_grow", "gi_set", "tramp", "tramp", "mk", "mk_set"}
 	if s.ImpFunc >= 0 {
-		names = append(names, "call_imp", "call_imp")
+		names = append(names, "call_imp", "call_imp", "call_impmk", "call_impmk")
 	}
 	if s.ImpGlobal >= 0 {
 		names = append(names, "ig_call", "ig_call", "ig_call")
@@ -980,7 +997,7 @@ func (g *gen) genCall(withAct bool) (Op, bool) {
 		op.Args = []uint64{uint64(r.Intn(stMin))}
 	case "pt_copy_call":
 		op.Args = []uint64{uint64(r.Intn(4)), uint64(r.Intn(4))}
-	case "mem_rw", "gi_set":
+	case "mem_rw", "gi_set", "mk_set":
 		op.Args = []uint64{uint64(r.Intn(1000))}
 	case "tramp":
 		op.Args = []uint64{uint64(200 + r.Intn(1200))}
@@ -1204,6 +1221,7 @@ func (g *gen) annotateAndApply(m *model, op *Op) {
 				in.st[i] = refInfo{prod: -1}
 			}
 			in.st[0] = refInfo{prod: op.Inst, which: 1, channel: "own"}
+			in.st[1] = refInfo{prod: op.Inst, which: 4, channel: "own"}
 		}
 		// will the real-world instantiation fail? (over-approximated: "absent" is the conservative direction)
 		if m.rtClosed[op.RT] || m.rtDropped[op.RT] || m.cacheCl || (m.hostClosed[op.RT] && s.Fail != 1) {
@@ -1352,8 +1370,10 @@ func (g *gen) annotateAndApply(m *model, op *Op) {
 			if ri, ok := m.slotRef(id, "st", arg(0)); ok {
 				funcrefUse(ri, id)
 			}
-		case "call_imp":
+		case "call_imp", "call_impmk":
 			imported("imported-function-of-closed-instance", s.ImpFunc)
+		case "mk_set":
+			op.Mutates = true
 		case "mem_rw", "mem_grow":
 			if s.ImpMem >= 0 {
 				imported("imported-memory-of-closed-instance", s.ImpMem)
@@ -1487,6 +1507,26 @@ func ManualHistory(channel string, compiler bool) *History {
 		pass = Op{Kind: "passref", From: 0, Inst: 1, Which: 3, Channel: "pt_set", Idx: 2}
 		use = Op{Kind: "call", Inst: 1, Name: "pt_call2", Args: []uint64{2, 5, 0},
 			Sub: []Op{{Kind: "closemod", Inst: 0}, {Kind: "closecomp", RT: 0, Slot: 0}, {Kind: "drop", Inst: 0}, {Kind: "dropcomp", RT: 0, Slot: 0}, {Kind: "gc"}}}
+	case "private-memory":
+		// A's memory is private (not exported); B imports A's functions and A's table: after A is closed, dropped
+		// and collected around, A's functions must still see the marker and accept writes
+		a.PrivMem, a.ExportTable = true, true
+		b.ImpFunc, b.ImpTable = 0, 0
+		h.Mods = []ModSpec{a, b}
+		g := &gen{h: h, m: newModel(h)}
+		uses := []Op{{Kind: "call", Inst: 1, Name: "call_impmk"}, {Kind: "call", Inst: 1, Name: "st_call", Args: []uint64{1}},
+			{Kind: "call", Inst: 1, Name: "chain", Args: []uint64{5, 0}}}
+		steps := []Op{{Kind: "compile", Slot: 0}, {Kind: "inst", Slot: 0, Inst: 0, Name: "m0"}, {Kind: "compile", Slot: 1}, {Kind: "inst", Slot: 1, Inst: 1, Name: "m1"},
+			{Kind: "call", Inst: 0, Name: "mk_set", Args: []uint64{77}}}
+		steps = append(steps, uses...)
+		steps = append(steps, Op{Kind: "call", Inst: 1, Name: "chain", Args: []uint64{6, 0}, Sub: []Op{{Kind: "closemod", Inst: 0}, {Kind: "gc"}}}, // closed in flight
+			Op{Kind: "drop", Inst: 0}, Op{Kind: "gc"}, Op{Kind: "churn", N: 600}, Op{Kind: "gc"})
+		steps = append(steps, uses...)
+		for _, op := range steps {
+			g.emit(op)
+		}
+		h.NInst = len(g.m.inst)
+		return h
 	case "shared-compiled", "shared-compiled-twice":
 		// two users of one binary's engine entry restored from a WARM directory cache (two runtimes sharing the cache
 		// object / one runtime compiling twice); the first user closes its CompiledModule, the other must keep working
